@@ -20,6 +20,8 @@ type Oracle struct {
 	lastHost map[string]HostSpec
 	tainted  bool     // some backend of this history carried two endpoints with one target
 	Buckets  []string // classification of the last step (for the input distribution)
+	// StrictHost: the history runs with the global strict-host option
+	StrictHost bool
 }
 
 // NewOracle creates the per-history state.
@@ -268,11 +270,23 @@ func (o *Oracle) Check(st *Step, obs *StepObs, c02, c11 bool) []Finding {
 
 	// ---- C11
 	if c11 && obs.Panic == "" && obs.Err == "" {
+		// cause, for the key: with strict-host, the "/" paths SyncConfig adds on behalf of hosts that
+		// are not part of this update are missing on a re-created backend (field Paths differs)
+		sfx := ""
+		if o.StrictHost {
+			for _, b := range obs.Backs {
+				for _, f := range b.CfgDiff {
+					if f == "Paths" && !b.Shrunk {
+						sfx = "-strict-host-paths"
+					}
+				}
+			}
+		}
 		if noop && obs.Reloads > 0 {
-			add("C11/noop-reload", "re-created objects equal to the previous ones, yet HAProxy was reloaded")
+			add("C11/noop-reload"+sfx, "re-created objects equal to the previous ones, yet HAProxy was reloaded")
 		}
 		if inCapacity && obs.Reloads > 0 {
-			add("C11/in-capacity-reload", "an endpoints-only change that fits in the existing slots reloaded HAProxy")
+			add("C11/in-capacity-reload"+sfx, "an endpoints-only change that fits in the existing slots reloaded HAProxy")
 		}
 		if (noop || inCapacity) && obs.Reloads == 0 {
 			for _, b := range obs.Backs {
